@@ -556,7 +556,7 @@ def _key_safe(fn: ast.FunctionDef, sub: ast.Subscript, E: Effects, q: str) -> tu
             if it is not None:
                 txt = norm(it)
                 first_of_items = isinstance(n.target, ast.Tuple) and isinstance(n.target.elts[0], ast.Name) and n.target.elts[0].id == sl.id
-                if txt in (base_txt, f"{base_txt}.keys()", f"list({base_txt}.keys())", f"list({base_txt})") or (txt == f"{base_txt}.items()" and first_of_items):
+                if _is_keys_of(it, base_txt, fn) or (txt == f"{base_txt}.items()" and first_of_items):
                     return "safe", f"{sl.id} iterates the keys of {base_txt}"
                 if txt.startswith(("range(", "enumerate(")):
                     return "skip", "integer index"
@@ -578,9 +578,24 @@ def _key_safe(fn: ast.FunctionDef, sub: ast.Subscript, E: Effects, q: str) -> tu
                     okc = False
                     for n in ast.walk(cfn):
                         if isinstance(n, (ast.For, ast.comprehension)) and isinstance(n.target, ast.Name) and n.target.id == karg.id:
-                            if norm(n.iter) in (norm(barg), f"{norm(barg)}.keys()", f"list({norm(barg)}.keys())"):
+                            if _is_keys_of(n.iter, norm(barg), cfn):
                                 okc = True
                     allsafe = allsafe and okc
                 if allsafe:
                     return "safe", f"every caller passes a key obtained by iterating {base_txt}'s keys"
     return "unsafe", "no dominating membership test, not an iteration over its own keys"
+
+
+def _is_keys_of(expr: ast.expr, base_txt: str, fn: ast.FunctionDef) -> bool:
+    """``expr`` denotes (a snapshot of) the keys of ``base_txt``: the container itself, its .keys(), a list /
+    tuple / sorted copy of either, or a local bound exactly once in ``fn`` to one of these."""
+    forms = {base_txt, f"{base_txt}.keys()"}
+    forms |= {f"{w}({x})" for w in ("list", "tuple", "sorted", "frozenset", "set") for x in list(forms)}
+    if norm(expr) in forms:
+        return True
+    if isinstance(expr, ast.Name):
+        binds = [st.value for st in ast.walk(fn) if isinstance(st, ast.Assign) and any(isinstance(t, ast.Name) and t.id == expr.id for t in st.targets)]
+        others = [st for st in ast.walk(fn) if isinstance(st, (ast.AugAssign, ast.AnnAssign, ast.For, ast.comprehension, ast.NamedExpr)) and isinstance(getattr(st, "target", None), ast.Name) and st.target.id == expr.id]
+        if len(binds) == 1 and not others and norm(binds[0]) in forms:
+            return True
+    return False
